@@ -779,17 +779,17 @@ Proof.
 Qed.
 
 (* a class one of whose bases is rejected is itself reported, never silently linearised *)
-Lemma rejected_base_reported h c b :
-  In b (getbases h c) -> fst (init_mro h c) = KOk -> fst (compute_mro h c) = KOk ->
-  exists m, mro (mro_fuel h) h b = MOk m.
+Lemma rejected_base_reported h rank c b :
+  acyclic h rank -> In b (getbases h c) -> fst (init_mro h c) = KOk ->
+  exists m, init_mro h b = (KOk, m).
 Proof.
-  intros Hb _ Hc. unfold compute_mro in Hc.
-  destruct (init_final (mro_fuel h) h [] c); try discriminate.
+  intros Ha Hb Hc. unfold init_mro in *. rewrite (compute_mro_acyclic h rank c Ha) in Hc.
+  rewrite (compute_mro_acyclic h rank b Ha).
   destruct (mro (mro_fuel h) h c) as [l| |] eqn:Hm; try discriminate.
   unfold mro_fuel in *. destruct (mro_ok_inv _ _ _ _ Hm) as [[E _] | (ms & r' & _ & Hall & _)].
   - rewrite E in Hb. contradiction.
   - destruct (Forall2_in_l _ _ _ b (mro_all_ok _ _ _ Hall) Hb) as (m & _ & Hmb).
-    exists m. rewrite mro_fuel_mono; [assumption | congruence].
+    exists m. rewrite mro_fuel_mono, Hmb; [reflexivity | congruence].
 Qed.
 
 Lemma mro_head f h c r : mro f h c = MOk r -> exists r', r = c :: r'.
